@@ -13,6 +13,21 @@ let int_of_z (x : z) : int = match x with Z0 -> 0 | Zpos p -> int_of_pos p | Zne
 let rec nat_of_int (n : int) : nat = if n <= 0 then O else S (nat_of_int (n - 1))
 let rec int_of_nat (n : nat) : int = match n with O -> 0 | S m -> 1 + int_of_nat m
 
+(* decimal string (optional sign) of any size -> Z *)
+let z_of_string (s : string) : z =
+  let n = String.length s in
+  let neg = n > 0 && s.[0] = '-' in
+  let start = if n > 0 && (s.[0] = '-' || s.[0] = '+') then 1 else 0 in
+  if start >= n then failwith "z_of_string";
+  let acc = ref Z0 in
+  for i = start to n - 1 do
+    let c = s.[i] in
+    if c < '0' || c > '9' then failwith "z_of_string";
+    acc := Z.add (Z.mul !acc (z_of_int 10)) (z_of_int (Char.code c - 48))
+  done;
+  if neg then Z.opp !acc else !acc
+let zint = function Atom s -> z_of_string s | _ -> failwith "int expected"
+
 let str = function Str s -> s | Atom s -> s | _ -> failwith "str expected"
 let int = function Atom s -> int_of_string s | _ -> failwith "int expected"
 let lst = function List l -> l | _ -> failwith "list expected"
